@@ -396,7 +396,8 @@ def _check_set(ctx, r, set_, stack_tl, stack_attr, tag, t3=None, t4=None):
     set_ = follow_delegate(ctx.model, set_)
     al = r.local_aliases(set_)
     params = [p for p in set_.params if not (set_.cls is not None and p == set_.params[0] and p in ("self", "cls"))]
-    need(len(params) == 4, "set_shape_memo no longer takes the four memos")
+    need(len(params) in (1, 4), "set_shape_memo takes neither the four memos nor one snapshot tuple")
+    whole = params[0] if len(params) == 1 else None  # the snapshot tuple as one parameter
     found = False
     from ..typestate import NoReturn
 
@@ -415,7 +416,8 @@ def _check_set(ctx, r, set_, stack_tl, stack_attr, tag, t3=None, t4=None):
                         ctx.bad(t4, set_, n, "set_shape_memo writes a context other than the innermost one")
                         continue
                     v = n.value
-                    if isinstance(v, ast.Tuple) and [getattr(e, "id", None) for e in v.elts] == params:
+                    if (isinstance(v, ast.Tuple) and [getattr(e, "id", None) for e in v.elts] == params and whole is None) or (
+                            whole is not None and isinstance(v, ast.Name) and v.id == whole):
                         ctx.ok(t4, set_.qualname, "replaces the top of the stack with the four memos in parameter order")
                     else:
                         ctx.bad(t3, set_, n, "set_shape_memo stores the memos in a different order than its parameters")
@@ -440,7 +442,9 @@ def _check_set(ctx, r, set_, stack_tl, stack_attr, tag, t3=None, t4=None):
                     if other:
                         ctx.bad(t4, set_, n, "set_shape_memo restores a context other than the innermost one")
                         continue
-                    if not (isinstance(newsrc, ast.Tuple) and [getattr(e, "id", None) for e in newsrc.elts] == params):
+                    if whole is not None and isinstance(new, ast.Name) and new.id == whole:
+                        pass  # zip(<top>, <snapshot tuple parameter>)
+                    elif whole is not None or not (isinstance(newsrc, ast.Tuple) and [getattr(e, "id", None) for e in newsrc.elts] == params):
                         ctx.bad(t3, set_, n, "set_shape_memo pairs the stored memos with its parameters in a different order")
                         continue
                     old_v, new_v = n.target.elts[0].id, n.target.elts[1].id
